@@ -176,25 +176,50 @@ def lazy_enc_apply(enc, v):
     return r
 
 
+def _enc_id(x):
+    return x
+
+
+def _enc_inc(x):
+    return x + 1
+
+
+def _enc_dbl(x):
+    return x * 2
+
+
+def _enc_astr(x):
+    return None if x == "?" else x
+
+
+class Loader:
+    """a picklable loader for LazyDense / LazySparse (`row()` returns a fresh copy of the stored list / dict)"""
+    def __init__(self, data):
+        self.data = data
+
+    def __call__(self):
+        return list(self.data) if isinstance(self.data, list) else dict(self.data)
+
+
 def real_enc(enc, sparse=False):
     if isinstance(enc, dict):
         from coba.encodings import CategoricalEncoder
         from coba.pipes.readers import ArffAttrReader
         return ArffAttrReader.CategoricalDict(CategoricalEncoder(list(enc["acat"]))._categoricals).__getitem__
     if enc == "id":
-        return lambda x: x
+        return _enc_id
     if enc == "int":
         return int
     if enc == "str":
         return str
     if enc == "inc":
-        return lambda x: x + 1
+        return _enc_inc
     if enc == "dbl":
-        return lambda x: x * 2
+        return _enc_dbl
     if enc == "anum":
         return float
     if enc == "astr":
-        return lambda x: None if x == "?" else x
+        return _enc_astr
     raise ValueError("enc %r" % (enc,))
 
 
@@ -664,6 +689,8 @@ def eager_access(e, acc):
     """what the eager row gives for this access: {"v":canon} | {"e":1} (must raise) | {"u":1} (no claim)"""
     a = acc["a"]
     dense = isinstance(e, ED)
+    if a == "clone":
+        return eager_access(e, acc["sub"])
     if a == "feats":
         try:
             f = eager_feats(e)
@@ -754,7 +781,7 @@ def base_rows(case):
                 else:
                     enc = [real_enc(e) for e in base["enc"]] if base.get("enc") else None
                     hdr = {n: i for i, n in enumerate(base["hdr"])} if base.get("hdr") is not None else None
-                    src = (lambda vals=vals: list(vals)) if base.get("loader") else vals
+                    src = Loader(vals) if base.get("loader") else vals
                     rows.append(R.LazyDense(src, enc, hdr, raw_missing(kind, raw)))
             else:
                 d = {k: real_from_json(c) for k, c in raw}
@@ -762,7 +789,7 @@ def base_rows(case):
                 if base["wrap"] == "plain":
                     rows.append(d)
                 else:
-                    src = (lambda d=d: dict(d)) if base.get("loader") else d
+                    src = Loader(d) if base.get("loader") else d
                     kw = {}
                     if base.get("enc"):
                         kw["enc"] = {k: real_enc(e) for k, e in base["enc"]}
@@ -906,6 +933,26 @@ def real_access(r, acc, e):
     """perform one access on the real row object; e = the eager row (only used to build the other side of ==)"""
     import coba.pipes.rows as R
     a = acc["a"]
+    if a == "clone":
+        import copy as _copy
+        import pickle as _pickle
+        how = acc["how"]
+        try:
+            if how == "copy":
+                dup = _copy.copy(r)
+            elif how == "deepcopy":
+                dup = _copy.deepcopy(r)
+            else:
+                try:
+                    blob = _pickle.dumps(r)
+                except Exception:
+                    return UNDEF        # this row object cannot be pickled (lambda / closure inside): no claim
+                dup = _pickle.loads(blob)
+        except Exception as ex:
+            if "mappingproxy" in str(ex):
+                return UNDEF            # the header map handed to HeadRows is a MappingProxyType, which Python itself cannot copy / pickle
+            return {"e": "%s-failed:%s" % (how, type(ex).__name__)}
+        return real_access(dup, acc["sub"], e)
     try:
         if a == "feats":
             f = r.feats
@@ -1074,6 +1121,8 @@ def label_pos(stages):
 
 
 def acc_name(acc):
+    if acc["a"] == "clone":
+        return acc["how"] + "." + acc_name(acc["sub"])
     if acc["a"] == "feats":
         return "feats." + acc_name(acc["sub"])
     if acc["a"] == "eq":
@@ -1095,7 +1144,31 @@ def effective(st):
 
 
 def leaf(acc):
-    return leaf(acc["sub"]) if acc["a"] == "feats" else acc
+    return leaf(acc["sub"]) if acc["a"] in ("feats", "clone") else acc
+
+
+def strip(acc):
+    """the access without its copy steps: a copy (copy.copy / copy.deepcopy / pickle round trip) of a row must be indistinguishable
+    from the row, so the eager model, the Lean model and the classification see the plain access"""
+    if acc["a"] == "clone":
+        return strip(acc["sub"])
+    if acc["a"] == "feats":
+        return dict(acc, sub=strip(acc["sub"]))
+    return acc
+
+
+def known_sig(sig):
+    return sig.endswith(":label-not-last") or open_sig(sig)
+
+
+def leaf_how(acc):
+    if acc["a"] == "clone":
+        return acc["how"]
+    return leaf_how(acc["sub"])
+
+
+def has_clone(acc):
+    return acc["a"] == "clone" or (acc["a"] == "feats" and has_clone(acc["sub"]))
 
 
 def enccat_on_lazy(case):
@@ -1238,7 +1311,7 @@ class C13(Property):
             "EncodeCatRows(onehot|onehot_tuple|string|None); 3-10 accesses (position incl. len and len+1, name, iter, len, keys, items, copy, "
             "headers, == same/reflected/lazy/perturbed, label, tipe, feats.<access>) on one row, the same accesses permuted and then repeated "
             "on a fresh copy; in 45 % of the cases the SAME filter objects then process one or two further tables (the first table with columns permuted / "
-            "one removed / one added, headers and base encoders moving with their column, or converted dense<->sparse), each judged against its own eager model and sent through the model's `session` in one request (theorem filter_stateless); 4 % of the multi-row dense tables are jagged (flag nonuniform: only the first-row model is compared); 6 % of the cases are 2-3 dense tables that differ only in the header map (own HeadRows(list|mapping in dict/MappingProxyType/ChainMap/custom Mapping flavours), shared LabelRows, by-name access on feats), 5 % have cells that are lists/dicts holding categoricals under EncodeCatRows ((B) only); every case compares its source data deeply before/after; non-trivial = at least one stage or a lazy base, and at least 3 accesses with an eager value; distinct by canonical JSON")
+            "one removed / one added, headers and base encoders moving with their column, or converted dense<->sparse), each judged against its own eager model and sent through the model's `session` in one request (theorem filter_stateless); 4 % of the multi-row dense tables are jagged (flag nonuniform: only the first-row model is compared); 6 % of the cases are 2-3 dense tables that differ only in the header map (own HeadRows(list|mapping in dict/MappingProxyType/ChainMap/custom Mapping flavours), shared LabelRows, by-name access on feats), 5 % have cells that are lists/dicts holding categoricals under EncodeCatRows ((B) only); every case compares its source data deeply before/after; 22 % of the accesses are made on a copy of the row taken at that point of the history (copy.copy / copy.deepcopy / pickle round trip; pickle is skipped where the object holds a lambda or closure), the copy must be indistinguishable from the eager row and the original unchanged; non-trivial = at least one stage or a lazy base, and at least 3 accesses with an eager value; distinct by canonical JSON")
     trusted_base = [
         "cells are small ints, decimal-integer strings, short words, '?', '', None and Categoricals; float() of ARFF numerics is modelled on "
         "integer literals only (an integer-valued float: equal to the int, str() gives 'N.0'; compared as an exact rational)",
@@ -1505,6 +1578,13 @@ class C13(Property):
         return acc
 
     def gen_access(self, rng, kind, nmax, names_pool, labeled, top):
+        a = self.gen_access_plain(rng, kind, nmax, names_pool, labeled, top)
+        if rng.chance(0.22):
+            # the access is made on a copy of the row taken at this point of the history
+            a = {"a": "clone", "how": rng.wchoice([(4, "deepcopy"), (3, "copy"), (3, "pickle")]), "sub": a}
+        return a
+
+    def gen_access_plain(self, rng, kind, nmax, names_pool, labeled, top):
         ops = [(5, "pos"), (5, "name"), (3, "iter"), (3, "len"), (2, "copy"), (2, "headers"), (4, "eq")]
         if kind == "sparse":
             ops = [(7, "name"), (3, "iter"), (3, "len"), (2, "copy"), (3, "keys"), (4, "items"), (4, "eq")]
@@ -1571,7 +1651,7 @@ class C13(Property):
             def retarget(a):
                 if a["a"] == "name" and rng.chance(0.75):
                     a["k"] = rng.choice(final)
-                elif a["a"] == "feats":
+                elif a["a"] in ("feats", "clone"):
                     retarget(a["sub"])
             for a in acc:
                 retarget(a)
@@ -1900,6 +1980,23 @@ class C13(Property):
         c = mk("dense", plain, [[1, {"cat": "q", "lv": ["p", "q", "r"]}, 2]], [{"op": "enccat", "t": "onehot"}], full_d)
         c["others"] = [tab("dense", plain, [[{"cat": "p", "lv": ["p", "q"]}, 5]], full_d), tab("dense", plain, [[7, 8, 9, 10]], full_d)]
         cs.append(c)
+        # copies of rows (copy.copy / copy.deepcopy / pickle round trip) taken inside the access history must be the row
+        def cl(how, sub):
+            return {"a": "clone", "how": how, "sub": sub}
+        arffd = {"wrap": "arff", "cols": [{"name": "a", "t": "num"}, {"name": "b", "t": "cat", "lv": ["x", "y"]}, {"name": "c", "t": "str"}]}
+        for ri in (0, 1, 2):
+            cs.append(mk("dense", arffd, [["1", "x", "w1"], ["?", "y", "zz"], ["3", "?", "?"]], [],
+                         [{"a": "pos", "i": 0}] + [cl(h, x) for h in ("deepcopy", "copy", "pickle") for x in ({"a": "iter"}, {"a": "pos", "i": 0}, {"a": "name", "k": "b"}, {"a": "len"}, {"a": "eq", "o": "same"}, {"a": "headers"})]
+                         + [{"a": "iter"}], ri))
+            cs.append(mk("dense", arffd, [["1", "x", "w1"], ["?", "y", "zz"], ["3", "?", "?"]], [{"op": "drop", "cols": ["c"], "pred": None}, {"op": "label", "k": "b", "t": "c"}],
+                         [cl(h, x) for h in ("deepcopy", "copy") for x in ({"a": "iter"}, {"a": "label"}, {"a": "feats", "sub": {"a": "iter"}}, {"a": "feats", "sub": cl("deepcopy", {"a": "name", "k": "a"})})], ri))
+        cs.append(mk("dense", {"wrap": "lazy", "loader": False, "enc": ["anum", "str"], "hdr": ["p", "q"]}, [["?", "7"]], [],
+                     [cl("pickle", {"a": "iter"}), cl("pickle", {"a": "name", "k": "p"}), cl("deepcopy", {"a": "pos", "i": 1}), {"a": "iter"}]))
+        cs.append(mk("dense", {"wrap": "lazy", "loader": True, "enc": ["dbl", "inc", "str"]}, [["a", 1, 2]], [{"op": "head", "names": ["x", "y", "z"]}, {"op": "encode", "seq": ["dbl", "inc", "dbl"]}],
+                     [cl("pickle", {"a": "iter"}), cl("deepcopy", {"a": "iter"}), cl("copy", {"a": "name", "k": "z"}), {"a": "iter"}, cl("pickle", {"a": "iter"})]))
+        arffs = {"wrap": "arff", "cols": [{"name": "a", "t": "num"}, {"name": "b", "t": "cat", "lv": ["p", "q"]}, {"name": "c", "t": "str"}]}
+        cs.append(mk("sparse", arffs, [[[0, "?"], [2, "x"]], [[1, "q"]]], [{"op": "label", "k": "b", "t": "c"}],
+                     [cl(h, x) for h in ("deepcopy", "copy", "pickle") for x in ({"a": "items"}, {"a": "name", "k": "a"}, {"a": "label"}, {"a": "feats", "sub": {"a": "items"}}, {"a": "len"})]))
         # recorded C13-F10: a header Mapping given in another order than the columns / naming only some of them, then
         # EncodeRows(mapping by name) and DropRows(by name)
         perm_map = {"op": "head", "map": [["g", 2], ["f", 0], ["e", 1]]}
@@ -1981,7 +2078,7 @@ class C13(Property):
             reqs = [None] * len(tabs)
             if driver is not None:
                 # one request: the model's `session` sends the tables through one set of filter objects too (theorem filter_stateless)
-                reqs = [dict(to_model(t, et, real.get("n")), pre=t["pre"]) for t, (real, et) in zip(tabs, runs)]
+                reqs = [dict(to_model(dict(t, acc=[strip(a) for a in t["acc"]]), et, real.get("n")), pre=t["pre"]) for t, (real, et) in zip(tabs, runs)]
                 if any(t.get("nested") for t in tabs):
                     answers, reqs = [None] * len(tabs), [None] * len(tabs)
                     driver = None
@@ -2023,6 +2120,13 @@ class C13(Property):
     def eval_table(self, case, real, et, driver, ans=None, req=None):
         fails, tags = [], []
         kind = case["kind"]
+        orig_acc = case["acc"]
+        for a in orig_acc:
+            if has_clone(a):
+                tags.append("copy:" + leaf_how(a))
+        # a copy of a row is the row: everything below (eager model, classification, Lean request) sees the access without its copy steps;
+        # the real results in `real` were obtained on the copies
+        case = dict(case, acc=[strip(a) for a in orig_acc])
         et_a = et
         hit = (getattr(et, "order_hit", False) or any(getattr(x, "order_hit", False) for x in et)) if et is not None else order_sensitive(case)
         if hit:
@@ -2080,10 +2184,11 @@ class C13(Property):
                         if ("e" in exp) != ("e" in got) or ("v" in exp and exp["v"] != got["v"]):
                             bsig[j] = classify(case, acc, exp, got)
                             fails.append(BF("a%d" % j, "row %d after %s: access %s gives %s, the eager row gives %s" % (
-                                case["ri"], json.dumps(case["stages"]), json.dumps(acc), json.dumps(got)[:300], json.dumps(exp)[:300]), bsig[j]))
+                                case["ri"], json.dumps(case["stages"]), json.dumps(orig_acc[j]), json.dumps(got)[:300], json.dumps(exp)[:300]),
+                                bsig[j] + ((":on-" + leaf_how(orig_acc[j])) if has_clone(orig_acc[j]) and not known_sig(bsig[j]) else "")))
                     # access order: permuted run on a fresh copy, then every access once more on the used copy
                     for other, what in ((real["second"][j], "in a different order on a fresh copy"), (real["again"][j], "again after all other accesses")):
-                        if other is not None and other != got:
+                        if other is not None and other != got and "u" not in other and "u" not in got:
                             fails.append(BF("o%d" % j, "access %s returned %s first and %s when performed %s" % (json.dumps(acc), json.dumps(got)[:200], json.dumps(other)[:200], what),
                                            "%s:order-dependent:%s" % (kind, leaf(acc)["a"])))
         if real.get("no_row"):
